@@ -262,6 +262,44 @@ let run_mon_browser args lines =
   let focus = match args with f :: _ -> int_of_string f | _ -> 0 in
   print_verdict (mon_browser (n_of_int focus) (browser_ops (List.map fst tr)) (List.map snd tr))
 
+(* values: programs over variables *)
+let values_ops lines =
+  let names = Hashtbl.create 7 and n = ref 0 in
+  let var v = (try Hashtbl.find names v with Not_found -> (Hashtbl.replace names v !n; incr n; !n - 1)) in
+  let nv v = nat_of_int (var v) in
+  List.map (fun l -> match words l with
+    | ["NEW"; v; k] -> VNew (nv v, (match k with "bitmap" -> KBitmap | "record" -> KRecord | "message" -> KMessage
+                                              | "query" -> KQuery | "service" -> KService | _ -> failwith ("class " ^ k)))
+    | ["COPY"; v; w] -> VCopy (nv v, nv w)
+    | ["ASSIGN"; v; w] -> VAssign (nv v, nv w)
+    | ["SETBYTES"; v; h] -> VSetBytes (nv v, bytes_of_tok h)
+    | ["SETSELF"; v; k] -> VSetSelf (nv v, n_of_int (int_of_string k))
+    | ["SETREC"; v; r] -> VSetRecord (nv v, record_of_tok r)
+    | ["SETMSG"; v; m] -> VSetMessage (nv v, message_of_tok m)
+    | ["SETQRY"; v; q] -> VSetQuery (nv v, query_of_tok q)
+    | ["SETSVC"; v; s] -> VSetService (nv v, service_of_tok s)
+    | ["EQ"; v; w] -> VEq (nv v, nv w)
+    | ["GET"; v] -> VGet (nv v)
+    | ["DEL"; v] -> VDel (nv v)
+    | _ -> failwith ("values op: " ^ l)) lines
+let print_vout = function
+  | VOEq b -> out_line ("EQ " ^ tok_of_bool b)
+  | VOVal (PBitmap b) -> out_line ("VAL bitmap " ^ tok_of_bytes b)
+  | VOVal (PRecordV r) -> out_line ("VAL record " ^ tok_of_record r)
+  | VOVal (PMessage m) -> out_line ("VAL message " ^ tok_of_message m)
+  | VOVal (PQuery q) -> out_line ("VAL query " ^ tok_of_query q)
+  | VOVal (PServiceV s) -> out_line ("VAL service " ^ tok_of_service s)
+  | VONone -> ()
+  | VOError -> out_line "ERR"
+let run_values lines =
+  let ops = values_ops lines in
+  (match values_run ops with
+   | Ok outs -> List.iter (fun o -> print_vout o; out_line ".") outs
+   | Fault -> out_line "FAULT model-heap (read or free of a block that is not live)"
+   | _ -> out_line "ERROR values");
+  ()
+let run_values_pure lines = List.iter (fun o -> print_vout o; out_line ".") (values_pure (values_ops lines))
+
 (* ---------------- main ---------------- *)
 let engines : (string * (string list -> string list -> unit)) list ref = ref []
 let register name f = engines := (name, f) :: !engines
@@ -277,6 +315,8 @@ let () =
   register "resolver" (fun _ lines -> run_resolver lines);
   register "provider" run_provider;
   register "browser" (fun _ lines -> run_browser lines);
+  register "values" (fun _ lines -> run_values lines);
+  register "values-pure" (fun _ lines -> run_values_pure lines);
   register "mon-browser" run_mon_browser;
   register "mon-provider" run_mon_provider;
   register "mon-resolver" (fun _ lines -> run_mon_resolver lines)
